@@ -398,3 +398,50 @@ func init() {
 }
 
 var timeZero = NumStr("-62135596800000000000")
+
+// ---------------- sort ----------------
+// sort.Sort on the repository's BySequenceId ([]*Minter ordered by SequenceId): afterwards the slice holds the same elements
+// (every new element is one of the old ones and every old one is still present) in ascending SequenceId order. Other
+// sort.Interface implementations are not modelled.
+func init() {
+	reg("sort.Sort", func(c *LibCtx, a []*Val) *Val {
+		iv := a[0]
+		if iv.K != VIface || iv.Tag.K != TNum {
+			c.x.note("sort.Sort on an unknown sort.Interface value: not modelled")
+			return nil
+		}
+		T := typeIDTypes[int(iv.Tag.Num.Int64())]
+		if T == nil || !strings.HasSuffix(typeString(T), "cfeminter/types.BySequenceId") {
+			c.x.note("sort.Sort on " + typeString(T) + ": not modelled (elements keep their order in the model)")
+			return nil
+		}
+		s := c.x.unbox(c.st, iv, T)
+		if s.K != VSlice {
+			return nil
+		}
+		et := sliceElem(T) // *Minter
+		fl := flatten(et)
+		key, h := c.st.heapArr(et, fl[0], true)
+		oldRow := Select(h, s.T)
+		newRow := Const(freshName("sorted"), oldRow.Sort)
+		i, j := Bound("i", SInt), Bound("j", SInt)
+		inR := func(k *Term) *Term { return And(Ge(k, Num(0)), Lt(k, s.Len)) }
+		at := func(row, k *Term) *Term { return Select(row, ElemIdx(s.Off, k)) }
+		// same elements (as a set, which is what the validation that follows relies on)
+		c.st.Assume(Forall([]*Term{i}, Implies(inR(i), Exists([]*Term{j}, And(inR(j), Eq(at(newRow, i), at(oldRow, j))))), []*Term{at(newRow, i)}))
+		c.st.Assume(Forall([]*Term{j}, Implies(inR(j), Exists([]*Term{i}, And(inR(i), Eq(at(newRow, i), at(oldRow, j))))), []*Term{at(oldRow, j)}))
+		// positions outside the slice keep their content
+		c.st.Assume(Forall([]*Term{i}, Implies(Not(inR(Sub(i, s.Off))), Eq(Select(newRow, i), Select(oldRow, i))), []*Term{Select(newRow, i)}))
+		// ascending SequenceId
+		mt := ptrElem(et)
+		if path, ok := fieldPath(mt, "SequenceId", 0); ok {
+			prefix, ft := pathPrefix(mt, path)
+			sl := flatten(ft)
+			_, seq := c.st.heapArr(mt, Leaf{prefix + sl[0].Path, sl[0].Sort, sl[0].Ref}, false)
+			c.st.Assume(Forall([]*Term{i, j}, Implies(And(inR(i), inR(j), Le(i, j)), Le(Select(seq, at(newRow, i)), Select(seq, at(newRow, j)))),
+				[]*Term{at(newRow, i), at(newRow, j)}))
+		}
+		c.st.setHeap(key, Store(h, s.T, newRow))
+		return nil
+	})
+}
